@@ -34,7 +34,7 @@ def views_for(shape):
         vs += [(slice(1, None),), (slice(-2, None),), (slice(0, None, 2),), (slice(0, 2),)]
     else:
         vs += [(slice(1, None),), (slice(None), slice(1, None)), (slice(-1, None), slice(-2, None)), (slice(None), slice(0, None, 2)),
-               (0,), (slice(None), 1), (slice(0, 1), slice(0, 2))]
+               (0,), (slice(None), 1), (slice(None), shape[-1] - 1), (slice(0, 1), slice(0, 2))]
         if nd == 3:
             vs += [(slice(None), slice(None), slice(1, None)), (slice(None), 0, slice(None))]
     return vs
@@ -107,6 +107,12 @@ def body_statistic(env, shape=(2, 3), stats=STATS, subsets=SUBSETS, finite=True,
         st = ss.SliceSubsetState(d, sl)
         full_mask = np.zeros(shape, dtype=bool)
         full_mask[tuple(sl)] = True
+    elif sub == 'slice2':
+        # a slice that stops before the end of the last axis (integer view entries equal to the stop are outside)
+        sl = [slice(None)] * (nd - 1) + [slice(0, shape[-1] - 1)]
+        st = ss.SliceSubsetState(d, sl)
+        full_mask = np.zeros(shape, dtype=bool)
+        full_mask[tuple(sl)] = True
     elif sub == 'pixel':
         t = env.real('t', lo=-1, hi=4)
         st = d.pixel_component_ids[nd - 1] >= t
@@ -128,7 +134,7 @@ def body_statistic(env, shape=(2, 3), stats=STATS, subsets=SUBSETS, finite=True,
     if positive:
         keep = keep & (vals > 0)
     plain = (not finite) and (not positive) and st is None
-    slice_shortcut = (sub == 'slice' and view is None)
+    slice_shortcut = (sub in ('slice', 'slice2') and view is None)
     if slice_shortcut:
         # documented shortcut: the statistic is taken over the sliced array itself (result not padded)
         sl_t = tuple(st.slices)
@@ -140,7 +146,7 @@ def body_statistic(env, shape=(2, 3), stats=STATS, subsets=SUBSETS, finite=True,
     if q is not None:
         kw['percentile'] = q
     ncm = None
-    if view is None and isinstance(axis, tuple) and len(axis) == nd - 1 and nd > 1 and sub != 'slice':
+    if view is None and isinstance(axis, tuple) and len(axis) == nd - 1 and nd > 1 and sub not in ('slice', 'slice2'):
         size = int(np.prod(shape))
         ncm = [1, 2, size - 1, size + 1][env.choice('n_chunk_max', 4)]
         kw['n_chunk_max'] = ncm
@@ -335,6 +341,10 @@ def harnesses(tier):
                                   validate=25, weight=6 if sub[0] in ('mask', 'range') else 3, max_paths=200000, wall_s=900,
                                   bounds=dict(shape=shape, statistic=stat, subsets=sub, axes='all', views=[str(v) for v in QV[shape]],
                                               n_chunk_max=[1, 2, 'size-1', 'size+1'])))
+        hs.append(Harness('statistic (2, 3) slice stopping early, integer views', body_statistic,
+                          params=dict(shape=(2, 3), stats=['sum', 'minimum'], subsets=['slice2'], positives=(False,),
+                                      views=[None, (slice(None), 2), (slice(None), 1), (slice(None), -1), (1, 2), (slice(None), slice(1, None))]),
+                          validate=25, bounds=dict(shape=(2, 3), subsets=['slice [:, 0:2]'], views='integer entries at/around the stop')))
         hs.append(Harness('statistic (2, 3) finite=False', body_statistic,
                           params=dict(shape=(2, 2), stats=['minimum', 'sum', 'median'], subsets=['none', 'mask'], finite=False,
                                       views=[None, (slice(None), slice(1, None))], positives=(False,)), validate=25,
@@ -351,7 +361,7 @@ def harnesses(tier):
     else:
         for shape in [(2, 3), (2, 2, 2), (4,)]:
             for stat in STATS:
-                for sub in (['none', 'empty'], ['mask'], ['range', 'pixel'], ['slice']):
+                for sub in (['none', 'empty'], ['mask'], ['range', 'pixel'], ['slice', 'slice2']):
                     hs.append(Harness('statistic %s %s %s' % (shape, stat, '+'.join(sub)), body_statistic,
                                       params=dict(shape=shape, stats=[stat], subsets=sub), validate=40, weight=8 if 'mask' in sub else 3,
                                       max_paths=2000000, wall_s=3400,
